@@ -286,6 +286,8 @@ class Lab:
         kw[side + "_config"] = cfg
         if spec.get("cert"):
             kw["cert"] = spec["cert"]
+        if spec.get("server_versions"):
+            kw["server_versions"] = list(spec["server_versions"])
         self.hp = None
         self.puppet = None
         self.genuine = None          # first genuine datagram of the pair's own client (first-flight states)
@@ -401,6 +403,10 @@ class Lab:
         elif k == "sh_nopump":  # ServerHello bytes -> client in first flight, datagrams_to_send() NOT called afterwards
             sh = bytes.fromhex(op[1])
             self.send_long(b"\x06" + varint(0) + varint(len(sh)) + sh, dict(op[2] if len(op) > 2 else {}, nopump=True))
+        elif k == "ackgame":
+            # ["ackgame", epoch, pn_mode, ack_mode, extra frames hex, opts]: a protected packet with a CHOSEN packet number
+            # that acknowledges a packet the subject really sent (preferably one that itself carried an ACK frame)
+            self.ack_game(op[1], op[2], op[3], bytes.fromhex(op[4]), dict(op[5]) if len(op) > 5 else {})
         elif k == "tls":
             self.puppet.send_tls_message(op[2], bytes.fromhex(op[3]), epoch=op[1])
         elif k == "adv":
@@ -444,6 +450,59 @@ class Lab:
             self.subject.receive_datagram(data, self.peer_addr())
         else:
             self.pair.deliver_now(data, self.peer_addr(), self.subject)
+
+    def ack_game(self, epoch, pn_mode, ack_mode, extra, opts):
+        """Known from the wire observer: which of the subject's packets in this space carried ACK frames and what their
+        largest_acked was.  X = the last such packet (opts["pick"] = "first": the first), L = its largest_acked.
+        pn_mode: largest_acked (L) | below (L-1) | zero | dup_last (the puppet's last number again) | above (L+1) | next
+        ack_mode: x_only ([X]) | upto_x ([0..X]) | all (everything the subject sent) | none"""
+        from sim import F
+        from sim.puppet import SPACE_OF
+        pu = self.puppet
+        space = SPACE_OF[epoch]
+        direction = "s2c" if self.side == "server" else "c2s"
+        sent = [p for p in pu.observer.packets
+                if p.direction == direction and p.decrypted and p.space == space and not p.injected]
+        ackers = [p for p in sent if any(f.name in ("ACK", "ACK_ECN") for f in (p.frames or []))]
+        x = None
+        if ackers:
+            x = ackers[0] if opts.get("pick") == "first" else ackers[-1]
+        elif sent:
+            x = sent[-1]
+        largest = None
+        if x is not None:
+            ls = [f.fields.get("largest") for f in (x.frames or []) if f.name in ("ACK", "ACK_ECN")]
+            ls = [v for v in ls if v is not None]
+            largest = max(ls) if ls else None
+        last = pu._last_pn.get(space, -1)
+        base = largest if largest is not None else last
+        pn = {"largest_acked": base, "below": base - 1, "zero": 0, "dup_last": last, "above": base + 1}.get(pn_mode)
+        if pn is not None and pn < 0:
+            pn = 0
+        frames = []
+        if ack_mode != "none" and x is not None:
+            if ack_mode == "x_only":
+                frames.append(F.ack([(x.pn, x.pn)]))
+            elif ack_mode == "upto_x":
+                frames.append(F.ack([(0, x.pn)]))
+            else:
+                pns = sorted({p.pn for p in sent})
+                frames.append(F.ack([(pns[0], pns[-1])]))
+        if extra:
+            frames.append(extra)
+        if not frames:
+            frames = [F.ping()]
+        self.last_ack_game = {"x": None if x is None else x.pn, "largest_acked": largest, "pn": pn, "ackers": len(ackers)}
+        kw = {"pn_len": 4}
+        if pn is not None:
+            kw["pn"] = pn
+        if opts.get("nopump"):
+            pkt = pu.build_packet(epoch, frames, **kw)
+            if epoch == "initial" and self.peer_side == "client" and len(pkt) < 1200:
+                pkt += bytes(1200 - len(pkt))
+            self.subject.receive_datagram(pkt, self.peer_addr())
+        else:
+            pu.send_frames(epoch, frames, **kw)
 
     def send_packet(self, epoch, payload, opts):
         kw = {}
@@ -1065,7 +1124,50 @@ def client_hello_variants(rng, genuine_ch):
     }
     for i in range(6):
         out["mut%d" % i] = tls_msg(1, mutate(rng, body))
+    # transport-parameter grammar: the genuine parameters with version_information (0x11) replaced -- chosen version x
+    # available-versions lists (other compatible version first / only / unknown versions / duplicates / empty), and
+    # other parameters at their validation boundaries; run_tls sends the "tp_" variants to servers configured with
+    # both versions AND with a single version
+    tp = dict(exts).get(TP, b"")
+    params = []
+    q = 0
+    try:
+        while q < len(tp):
+            pid, q = _rd_varint(tp, q)
+            ln, q = _rd_varint(tp, q)
+            params.append((pid, tp[q:q + ln]))
+            q += ln
+    except Exception:
+        params = []
+
+    def tpb(ps):
+        return b"".join(varint(i) + varint(len(v)) + v for i, v in ps)
+
+    def with_vi(chosen, available):
+        v = chosen.to_bytes(4, "big") + b"".join(a.to_bytes(4, "big") for a in available)
+        return build(repl(TP, tpb([(i, x) for i, x in params if i != 0x11] + [(0x11, v)])))
+
+    def with_param(pid, value):
+        return build(repl(TP, tpb([(i, x) for i, x in params if i != pid] + [(pid, value)])))
+
+    for cname, chosen in (("v1", V1), ("v2", V2), ("unk", 0x1A2A3A4A), ("zero", 0)):
+        for aname, avail in (("v2v1", [V2, V1]), ("v1v2", [V1, V2]), ("v2", [V2]), ("v1", [V1]), ("none", []),
+                             ("unk_v2_v1", [0x1A2A3A4A, V2, V1]), ("v2v2v1", [V2, V2, V1]), ("zero_v1", [0, V1])):
+            out["tp_vi_%s_%s" % (cname, aname)] = with_vi(chosen, avail)
+    out["tp_vi_odd_length"] = with_param(0x11, V1.to_bytes(4, "big") + b"\x00\x00")
+    out["tp_no_version_info"] = build(repl(TP, tpb([(i, x) for i, x in params if i != 0x11])))
+    for pid, vals in ((0x0E, [0, 1, 2]), (0x0A, [20, 21]), (0x0B, [16383, 16384]), (0x03, [1199, 1200, 65528]),
+                      (0x01, [0, 1 << 40]), (0x04, [(1 << 62) - 1]), (0x08, [1 << 60, (1 << 60) + 1]), (0x20, [0, 65536])):
+        for v in vals:
+            out["tp_param_%x_%d" % (pid, v)] = with_param(pid, varint(v))
+    out["tp_duplicate_param"] = build(repl(TP, tpb(params + params[:1])))
+    out["tp_unknown_param"] = build(repl(TP, tpb(params + [(0x7F31, b"abc")])))
     return out
+
+
+def _rd_varint(b, q):
+    n = 1 << (b[q] >> 6)
+    return int.from_bytes(b[q:q + n], "big") & ((1 << (8 * n - 2)) - 1), q + n
 
 
 def server_hello_variants(rng):
@@ -1354,6 +1456,9 @@ def run(ctx):
     # 3. (b) multi-packet sessions: many grammar packets per connection, all epochs with keys, timers in between
     run_sessions(ctx, rng, ctx.n(60, 900), stats, report)
 
+    # 3b. packet-number / ACK-of-ACK games by a key-holding peer
+    run_ack_games(ctx, rng, ctx.n(120, 1600), stats, report)
+
     # 4. (c) hostile TLS
     run_tls(ctx, rng, stats, report)
 
@@ -1451,6 +1556,70 @@ def run_sessions(ctx, rng, n, stats, report):
             report(probs, {"spec": sp, "ops": ops}, "sessions")
 
 
+PN_MODES = ["largest_acked", "below", "zero", "dup_last", "above", "next"]
+ACK_MODES = ["x_only", "upto_x", "all", "none"]
+
+
+def run_ack_games(ctx, rng, n, stats, report):
+    """Packet-number games by a key-holding peer: make the subject send an ACK-carrying packet X (PING, ack delay), then
+    send correctly protected packets whose number is old / duplicated / just above X's largest_acked and which acknowledge
+    X (ACK of ACK prunes the subject's ack queue) together with ack-eliciting or non-eliciting frames; every space with
+    keys; followed by datagrams_to_send / timers (pump, adv, settle); judged by the no-raise oracle."""
+    g = Gen(rng)
+    combos = [("client", "connected", "1rtt"), ("server", "connected", "1rtt"), ("client", "keyupdated", "1rtt"),
+              ("server", "keyupdated", "1rtt"), ("client", "handshake", "initial"), ("client", "handshake", "handshake"),
+              ("server", "handshake", "initial"), ("server", "handshake", "handshake")]
+    extras = [b"\x01", b"", b"\x01", b"\x00\x00\x00", b"\x01\x01"]
+    for i in range(n):
+        side, state, epoch = combos[i % len(combos)]
+        sp = spec(side, state, 600 + rng.randrange(4))
+        lab = Lab(sp)
+        ops = []
+
+        def do(op):
+            ops.append(op)
+            try:
+                lab.apply(op)
+            except ValueError:
+                ops.pop()
+
+        # the subject owes and sends an acknowledgement (X)
+        for _ in range(rng.choice([1, 1, 2, 3])):
+            do(["pkt", epoch, "01", {}])
+        do(["adv", 0.03])
+        for _ in range(rng.choice([1, 1, 2, 3])):
+            if i < len(combos) * len(PN_MODES):
+                pn_mode = PN_MODES[(i // len(combos)) % len(PN_MODES)]      # every mode in every space first
+            else:
+                pn_mode = rng.choice(PN_MODES)
+            ack_mode = rng.choice(ACK_MODES[:3]) if rng.random() < 0.85 else "none"
+            extra = rng.choice(extras)
+            if epoch == "1rtt" and rng.random() < 0.2:
+                extra = g.frame(rng.choice([0x08, 0x0A, 0x10, 0x1A, 0x30]))
+            opts = {}
+            if rng.random() < 0.25:
+                opts["nopump"] = True
+            if rng.random() < 0.2:
+                opts["pick"] = "first"
+            do(["ackgame", epoch, pn_mode, ack_mode, extra.hex(), opts])
+            stats["protected_packets"] += 1
+            stats.setdefault("ack_games", collections.Counter())["%s/%s/%s" % (epoch, pn_mode, ack_mode)] += 1
+            if getattr(lab, "last_ack_game", {}).get("ackers"):
+                stats.setdefault("ack_games_with_ack_of_ack", 0)
+                stats["ack_games_with_ack_of_ack"] += 1
+            do(["adv", rng.choice([0.001, 0.03, 0.03, 0.5])])
+            if rng.random() < 0.3:
+                do(["pkt", epoch, "01", {}])
+                do(["adv", 0.03])
+            if lab.subject.raised or lab.subject.terminated is not None:
+                break
+        lab.settle()
+        stats["worlds"] += 1
+        probs = judge(lab)
+        if probs:
+            report(probs, {"spec": sp, "ops": ops}, "ack-games")
+
+
 def run_tls(ctx, rng, stats, report):
     # ClientHello -> fresh server (Initial keys are public: any host can send these)
     lab0 = Lab(spec("server", "firstflight", 500))
@@ -1459,10 +1628,14 @@ def run_tls(ctx, rng, stats, report):
     rounds = 1 if not ctx.thorough else 6
     for rnd in range(rounds):
         for name, ch in client_hello_variants(rng, genuine_ch).items():
-            case = {"spec": spec("server", "firstflight", 500), "ops": [["ch", ch.hex()]], "variant": "ch:" + name}
-            _, probs = run_ops(case)
-            stats["tls_messages"] += 1
-            report(probs, case, "tls-client-hello:" + name)
+            # transport-parameter variants also go to servers configured with a single QUIC version / the other order
+            confs = [None] if not name.startswith("tp_") else [None, [V1], [V2, V1]]
+            for sv in confs:
+                sp = spec("server", "firstflight", 500) if sv is None else spec("server", "firstflight", 500, server_versions=sv)
+                case = {"spec": sp, "ops": [["ch", ch.hex()]], "variant": "ch:" + name}
+                _, probs = run_ops(case)
+                stats["tls_messages"] += 1
+                report(probs, case, "tls-client-hello:%s%s" % (name, "" if sv is None else "/server_versions=%s" % sv))
         for name, sh in server_hello_variants(rng).items():
             case = {"spec": spec("client", "firstflight", 501), "ops": [["sh", sh.hex()]], "variant": "sh:" + name}
             _, probs = run_ops(case)
